@@ -352,3 +352,122 @@ def register(prop, modules, run, needs_cli=False):
 
 
 register("C13", ["Guard.Properties.C13"], run_C13)
+
+
+# =============================================================================== C02
+
+LEAF = {"P": "p == 1", "F": "p == 2", "S": "l[ x == 9 ].y == 1"}
+C02_D = {"p": 1, "l": [{"x": 1, "y": 1}]}
+C02_DOC = dict(C02_D, ctx=C02_D, wrap=[C02_D])
+
+
+def cnf_text(shape):
+    """shape: list of lines, each a string over P/F/S"""
+    return "\n".join(" or ".join(LEAF[c] for c in line) for line in shape)
+
+
+def cnf_shapes(maxlines, maxalts):
+    alts = []
+    for n in range(1, maxalts + 1):
+        alts += ["".join(t) for t in itertools.product("PFS", repeat=n)]
+    for nl in range(1, maxlines + 1):
+        for lines in itertools.product(alts, repeat=nl):
+            yield list(lines)
+
+
+def spec_line(line):
+    return "P" if "P" in line else ("F" if "F" in line else "S")
+
+
+def spec_body(lines):
+    sts = [spec_line(l) for l in lines]
+    return "F" if "F" in sts else ("P" if "P" in sts else "S")
+
+
+SITE_TEMPLATES = {
+    # site -> (rules text with {CNF}, how the rule `r` status follows from the CNF status)
+    "rule-body": ("rule r {\n{CNF}\n}\n", lambda b: b),
+    "when-cond": ("rule r when {CNF} {\np == 1\n}\n", lambda b: "P" if b == "P" else "S"),
+    "block-body": ("rule r {\nctx {\n{CNF}\n}\n}\n", lambda b: b),
+    "when-block": ("rule r {\nwhen p == 1 {\n{CNF}\n}\n}\n", lambda b: b),
+    "filter-body": ("rule r {\nwrap[ {CNF} ] !empty\n}\n", lambda b: "P" if b == "P" else "F"),
+    "file": (None, None),
+}
+FULL = {"P": "PASS", "F": "FAIL", "S": "SKIP"}
+
+
+def model_tree_request(i, tree):
+    return {"id": i, "op": "consistent", "tree": tree}
+
+
+def judge_consistent(ctx, res, results, label):
+    """run the Lean `Consistent` predicate on the IMPLEMENTATION's record trees"""
+    reqs, idx = [], []
+    for i, r in enumerate(results):
+        if r["impl"].get("kind") == "ok":
+            reqs.append(model_tree_request(i, r["impl"]["tree"]))
+            idx.append(i)
+    resp = ctx.mp.map(reqs)
+    for i, m in zip(idx, resp):
+        r = results[i]
+        res.stats["consistent-judged"] += 1
+        res.stats["tree-nodes"] += m.get("size", 0)
+        if not m.get("consistent", False):
+            res.judge_failures.append({
+                "what": "%s: a composite record of the implementation's tree is not explained by its children (node path %s)" % (label, m.get("bad")),
+                "class": "c02-inconsistent", "rules": r["case"]["rules"], "data": r["case"]["data"],
+                "tree": r["impl"]["tree"], "bad_path": m.get("bad")})
+        t = r["impl"]["tree"]
+        if t["k"] != "FileCheck" or t["s"] != r["impl"]["status"]:
+            res.judge_failures.append({"what": "root record is not the FileCheck carrying the returned status",
+                                       "class": "c02-root", "rules": r["case"]["rules"], "data": r["case"]["data"]})
+
+
+def run_C02(ctx):
+    res = Result("(a) random rule files of the wide language (type blocks, parameterised rules, functions, nested when/"
+                 "blocks) x documents, whole record trees compared with the model and judged by `Consistent`; (b) all CNF "
+                 "shapes up to L lines x A alternatives with leaves forced to PASS/FAIL/SKIP at five sites + the file; "
+                 "non-trivial = evaluated to a tree with at least one rule, distinct by (rules, data) text")
+    results = evaluator_stream(ctx, res, 1500, 30000, "C02 record trees")
+    judge_consistent(ctx, res, results, "random programs")
+    # exhaustive CNF shapes
+    maxl, maxa = (3, 3) if ctx.thorough() else (2, 2)
+    shapes = list(cnf_shapes(maxl, maxa))
+    if ctx.thorough():
+        rng = random.Random(ctx.seed)
+        rng.shuffle(shapes)
+        shapes = shapes[:6000]
+    cases, meta = [], []
+    for sh in shapes:
+        for site, (tmpl, f) in SITE_TEMPLATES.items():
+            if site == "file":
+                # each line becomes its own rule; file status = body aggregation over rule statuses
+                rules = "".join("rule r%d {\n%s\n}\n" % (i, " or ".join(LEAF[c] for c in line)) for i, line in enumerate(sh))
+                exp_rules = [["r%d" % i, FULL[spec_line(line)]] for i, line in enumerate(sh)]
+                exp_file = FULL[spec_body(sh)]
+            else:
+                rules = tmpl.replace("{CNF}", cnf_text(sh) if site not in ("when-cond", "filter-body") else cnf_text(sh).replace("\n", "\n  "))
+                st = f(spec_body(sh))
+                exp_rules = [["r", FULL[st]]]
+                exp_file = FULL[st]
+            cases.append({"rules": rules, "data": json.dumps(C02_DOC)})
+            meta.append((site, sh, exp_rules, exp_file))
+    results2 = vlib.correspond(cases, ctx.hp, ctx.mp, detail=True)
+    absorb(res, results2, "C02 CNF shapes")
+    judge_consistent(ctx, res, results2, "CNF shapes")
+    for r, (site, sh, exp_rules, exp_file) in zip(results2, meta):
+        impl = r["impl"]
+        res.stats["cnf-site:" + site] += 1
+        if impl.get("kind") != "ok":
+            res.judge_failures.append({"what": "CNF shape did not evaluate: %s" % impl, "class": "c02-cnf-error",
+                                       "rules": r["case"]["rules"], "data": r["case"]["data"]})
+            continue
+        if impl["rules"] != exp_rules or impl["status"] != exp_file:
+            res.judge_failures.append({"what": "CNF aggregation at site %s: shape %s expected rules %s file %s, got %s %s" % (
+                site, sh, exp_rules, exp_file, impl["rules"], impl["status"]), "class": "c02-cnf",
+                "rules": r["case"]["rules"], "data": r["case"]["data"]})
+    res.extra["exhaustive_cnf"] = {"max_lines": maxl, "max_alternatives": maxa, "shapes": len(shapes), "sites": len(SITE_TEMPLATES)}
+    return res
+
+
+register("C02", ["Guard.Properties.C02"], run_C02)
